@@ -78,10 +78,10 @@ def spec_single(case, struct=None):
         preds = [a for a, b in edges if b == i]; succs = [b for a, b in edges if a == i]
         if struct is not None:          # service order is configuration read from the implementation
             assert sorted(struct['succs'][i]) == sorted(succs) and sorted(struct['preds'][i]) == sorted(preds)
-            assert struct['ext_sup'][i] == (not preds) and struct['has_dem'][i] == (v['demand'] is not None)
+            assert struct['ext_sup'][i] == (not preds or bool(v.get('ext'))) and struct['has_dem'][i] == (v['demand'] is not None)
             succs = list(struct['succs'][i]); preds = list(struct['preds'][i])
         sup = {p: [p] for p in preds}
-        if not preds: sup['x'] = [None]
+        if not preds or v.get('ext'): sup['x'] = [None]       # the external supplier comes last
         il0 = Fraction(v['init_il']) if v['init_il'] is not None else rule(v['pol'], 0)
         spec['nodes'][i] = dict(
             products=[i], bom={i: {r: Fraction(1) for r in sup}}, sup=sup,
@@ -493,7 +493,8 @@ def cost_spec(spec, G, t, n):
     return hc, sc, it
 
 
-def mon_c05(spec, G, total=None, tol=None, check_rev=True):
+def mon_c05(spec, G, total=None, tol=None, check_rev=True, notes=None):
+    """notes: optional set that receives the names of the sub-checks that were skipped (with the reason) and of the input features met"""
     bad = Bad(); T = len(G); N = spec['nodes']
     tot = Z
     for n, s in N.items():
@@ -504,9 +505,17 @@ def mon_c05(spec, G, total=None, tol=None, check_rev=True):
                 if not _eq(want, got, tol):
                     bad.add('cost-' + name, 'node %s period %d: %s cost recomputed from the reported state %s != reported %s' % (n, t, name, fq(want), fq(got)))
             if check_rev:
-                rv = sum((s['rev'][k] * sum((g['cust'][(c, k)]['OS'] for c in s['custs'][k]), Z) for k in s['products']), Z)
-                if not _eq(rv, g['REV'], tol):
-                    bad.add('cost-revenue', 'node %s period %d: revenue rate * shipments = %s != reported %s' % (n, t, fq(rv), fq(g['REV'])))
+                rvk = [s['rev'][k] * sum((g['cust'][(c, k)]['OS'] for c in s['custs'][k]), Z) for k in s['products']]
+                rv = sum(rvk, Z)
+                if notes is not None and rv != 0: notes.add('revenue>0' + ('|multi-product-node' if len(rvk) > 1 else ''))
+                if any(x != 0 for x in rvk[:-1]) and not simlib.INCLUDE_DEFECT_CLASSES:
+                    # DEFECT of the unchanged library (reported): `revenue_earned = ...` (assignment, not +=) inside the product loop of
+                    # sim._calculate_period_costs: a multi-product node reports the revenue of its LAST product only.  Exactly in the periods in
+                    # which another product of the node earns revenue the comparison with sum_k rate_k x shipments_k is skipped (and counted);
+                    # the property's identity below (total = holding + stockout + in-transit - REPORTED revenue) is checked in every period.
+                    if notes is not None: notes.add('revenue-sum-check-skipped:a-product-other-than-the-last-earns-revenue')
+                elif not _eq(rv, g['REV'], tol):
+                    bad.add('cost-revenue', 'node %s period %d: sum over products of revenue rate * shipments = %s != reported revenue %s' % (n, t, fq(rv), fq(g['REV'])))
             if not _eq(g['TC'], g['HC'] + g['SC'] + g['ITHC'] - g['REV'], tol):
                 bad.add('cost-total', 'node %s period %d: total %s != holding %s + stockout %s + in-transit %s - revenue %s' % (n, t, fq(g['TC']), fq(g['HC']), fq(g['SC']), fq(g['ITHC']), fq(g['REV'])))
             tot += g['TC']
@@ -596,7 +605,9 @@ def coverage(spec, G):
 def gen_multi(rng, nmax=5, tmax=12):
     """2- and 3-level networks, 1-3 products per node, BOM numbers 1..3, raw materials shared by several products, products handled by
     two suppliers (several suppliers of one raw material), predecessor products a customer does not use, external demand for some of
-    a node's products only, order lead times / initial orders / initial shipments everywhere.  JSON-friendly case."""
+    a node's products only, order lead times / initial orders / initial shipments everywhere; predecessors WITHOUT bill-of-materials relation
+    (network-implied raw materials, number 1) next to BOM-linked ones; inner nodes that are also supplied by the external supplier ('ext'); revenue
+    rates; lead times ('lt_where'), policies ('pol_where') and demand sources ('dem_where') given on the products instead of on the node.  JSON-friendly case."""
     levels = rng.choice([2, 2, 3])
     while True:
         sizes = [rng.randint(1, 2) for _ in range(levels)]
@@ -649,13 +660,18 @@ def gen_multi(rng, nmax=5, tmax=12):
     for l in range(1, levels):
         for i in lev[l]:
             ps = [a for a, b in edges if b == i]
-            avail = sorted({r for p in ps for r in nodes[p]['products']})
+            # MIXED suppliers: 30% of the nodes leave some (possibly all) of their predecessors without any bill-of-materials relation; such a
+            # predecessor is linked by the network structure alone (documented network BOM: every product of the node needs 1 unit of every
+            # product of that predecessor), next to predecessors linked by explicit bills of materials
+            imp = [p for p in ps if rng.random() < 0.5] if rng.random() < 0.3 else []
+            avail = sorted({r for p in ps if p not in imp for r in nodes[p]['products']})
             for k in nodes[i]['products']:
-                if prods[k]['bom']: continue          # a shared product keeps its bill of materials
+                if prods[k]['bom'] or not avail: continue          # a shared product keeps its bill of materials
                 for r in rng.sample(avail, rng.randint(1, min(3, len(avail)))):
                     prods[k]['bom'][r] = rng.randint(1, 3)
             own = [k for k in nodes[i]['products'] if not prods[k]['shared'] or i not in twin]    # products whose bill of materials may still grow
-            for p in ps:           # every predecessor must be needed; usually every product it handles as well
+            for p in ps:           # every other predecessor must be needed; usually every product it handles as well
+                if p in imp: continue
                 mine = nodes[p]['products']
                 used = [r for r in mine if any(r in prods[k]['bom'] for k in nodes[i]['products'])]
                 skip = rng.random() < 0.3 and len(mine) > 1
@@ -666,6 +682,18 @@ def gen_multi(rng, nmax=5, tmax=12):
             for k in nodes[i]['products']:
                 for r in prods[k]['bom']:
                     if sum(1 for p in ps if r in nodes[p]['products']) > 1: two_sup = True
+    # every product needs a raw material: where a shared product links a predecessor that was meant to stay without relation, the other
+    # products of the node are no longer supplied by that predecessor through the network structure
+    changed = True
+    while changed:
+        changed = False
+        for l in range(1, levels):
+            for i in lev[l]:
+                ps = [a for a, b in edges if b == i]
+                if any(_implicit(nodes, prods, p, i) for p in ps): continue
+                for k in nodes[i]['products']:
+                    if not any(r in prods[k]['bom'] for p in ps for r in nodes[p]['products']):
+                        prods[k]['bom'][rng.choice(nodes[rng.choice(ps)]['products'])] = rng.randint(1, 3); changed = True
     succs = {i: [b for a, b in edges if a == i] for i in ids}
     some_only = False
     for i in ids:
@@ -684,9 +712,33 @@ def gen_multi(rng, nmax=5, tmax=12):
             pr.update(pol=pol, cap=(rng.randint(2, 20) if rng.random() < 0.25 else None), init_il=(rng.randint(0, 25) if rng.random() < 0.5 else None),
                       h=Fraction(rng.randint(0, 12), 4), p=Fraction(rng.randint(0, 80), 4), ith=rng.choice([None, None, Fraction(0), Fraction(rng.randint(1, 8), 4)]),
                       demand=dem, where=('product' if pr['shared'] else rng.choice(['product', 'node'])))
+            # revenue rate (50% of the products); policy and demand source given on the product instead of per (node, product) (products of one node only:
+            # a Policy object refers to its node)
+            pr['rev'] = Fraction(rng.randint(1, 12), 4) if rng.random() < 0.5 else Fraction(0)
+            pr['pol_where'] = 'node' if pr['shared'] else rng.choice(['product', 'node'])
+            pr['dem_where'] = 'node' if pr['shared'] else rng.choice(['product', 'node'])
         d = [prods[k]['demand'] is not None for k in nodes[i]['products']]
         if any(d) and not all(d): some_only = True
-    return dict(kind='multi%d' % levels, multi=True, ids=ids, edges=edges, T=T, nodes=nodes, prods=prods, unused=unused, twins=two_sup, some_only=some_only, rebom=rng.random() < 0.3)
+    for i in ids:
+        v = nodes[i]
+        # a node with predecessors that is ALSO supplied by the external supplier (network BOM number 1 for the external supplier's dummy product)
+        v['ext'] = bool(v['level'] > 0 and rng.random() < 0.2)
+        # lead times given on the products (the same values on every product of the node: the node's lead times) instead of on the node
+        v['lt_where'] = 'product' if rng.random() < 0.4 and not any(prods[k]['shared'] for k in v['products']) else 'node'
+        if v['lt_where'] == 'product' and not simlib.INCLUDE_DEFECT_CLASSES:
+            # DEFECT of the unchanged library (reported; see simlib.gen_levels (2)): with product-level lead times the initial shipments / initial
+            # orders to the external supplier are not placed in the pipeline although on_order counts them - exactly this class is excluded
+            olt_slots = v['olt'] > 0 and v['init_orders'] > 0 and (v['level'] == 0 or v['ext'])
+            if (v['slt'] > 0 and (v['init_ships'] > 0 or olt_slots)) or olt_slots: v['lt_where'] = 'node'
+    mixed = any(_implicit(nodes, prods, a, b) for a, b in edges) and not all(_implicit(nodes, prods, a, b) for a, b in edges)
+    return dict(kind='multi%d' % levels, multi=True, ids=ids, edges=edges, T=T, nodes=nodes, prods=prods, unused=unused, twins=two_sup, some_only=some_only, rebom=rng.random() < 0.3,
+                mixed=bool(mixed or any(v['ext'] for v in nodes.values())))
+
+
+def _implicit(nd, pr, p, c):
+    """no bill-of-materials relation between any product of p and any product of its successor c: the documented network BOM then
+    makes every product of c need one unit of every product of p"""
+    return not any(r in pr[k2]['bom'] for k2 in nd[c]['products'] for r in nd[p]['products'])
 
 
 def multi_from_json(c):
@@ -696,6 +748,7 @@ def multi_from_json(c):
     for v in c['prods'].values():
         v['bom'] = {int(r): x for r, x in v['bom'].items()}
         for f in ('h', 'p'): v[f] = Fraction(v[f])
+        v['rev'] = Fraction(v.get('rev', 0))
         if v['ith'] is not None: v['ith'] = Fraction(v['ith'])
     return c
 
@@ -707,9 +760,10 @@ def build_multi(case):
     from stockpyl.demand_source import DemandSource
     from stockpyl.disruption_process import DisruptionProcess
     ids = case['ids']; nd = case['nodes']; pr = case['prods']
+    ltp = {i: nd[i].get('lt_where') == 'product' for i in ids}
     net = network_from_edges(
         edges=[tuple(e) for e in case['edges']], node_order_in_lists=list(ids),
-        shipment_lead_time={i: nd[i]['slt'] for i in ids}, order_lead_time={i: nd[i]['olt'] for i in ids},
+        shipment_lead_time={i: (None if ltp[i] else nd[i]['slt']) for i in ids}, order_lead_time={i: (None if ltp[i] else nd[i]['olt']) for i in ids},
         initial_orders={i: nd[i]['init_orders'] for i in ids}, initial_shipments={i: nd[i]['init_ships'] for i in ids},
         disruption_process={i: (DisruptionProcess(random_process_type='E', disruption_type=nd[i]['dis'][0], disruption_state_list=list(nd[i]['dis'][1]))
                                 if nd[i]['dis'] else None) for i in ids})
@@ -720,6 +774,9 @@ def build_multi(case):
         for r, num in v['bom'].items():
             P[k].set_bill_of_materials(raw_material=r, num_needed=(num + 1 if rebom else num))
     for i in ids:
+        if nd[i].get('ext'): nodes[i].supply_type = 'U'        # before the products are added: adding them rebuilds the network bill of materials
+        if ltp[i]:
+            for k in nd[i]['products']: P[k].shipment_lead_time = nd[i]['slt']; P[k].order_lead_time = nd[i]['olt']
         nodes[i].add_products([P[k] for k in nd[i]['products']])
     if rebom:
         for k, v in pr.items():
@@ -732,17 +789,23 @@ def build_multi(case):
             if p[0] == 'BS': return Policy(type='BS', base_stock_level=p[1], node=nodes[i], product=P[k])
             if p[0] == 'sS': return Policy(type='sS', reorder_point=p[1], order_up_to_level=p[2], node=nodes[i], product=P[k])
             return Policy(type='rQ', reorder_point=p[1], order_quantity=p[2], node=nodes[i], product=P[k])
-        nodes[i].inventory_policy = {k: polobj(k) for k in ks}
-        dem = {k: DemandSource(type='D', demand_list=list(pr[k]['demand'])) for k in ks if pr[k]['demand'] is not None}
-        if dem: nodes[i].demand_source = dem
-        for attr, f in (('local_holding_cost', 'h'), ('stockout_cost', 'p'), ('in_transit_holding_cost', 'ith'), ('order_capacity', 'cap'), ('initial_inventory_level', 'init_il')):
-            d = {k: (None if pr[k][f] is None else float(pr[k][f])) for k in ks if pr[k]['where'] == 'node'}
+        pols = {k: polobj(k) for k in ks if pr[k].get('pol_where', 'node') == 'node'}
+        nodes[i].inventory_policy = pols if pols else None
+        for k in ks:
+            if pr[k].get('pol_where', 'node') == 'product': P[k].inventory_policy = polobj(k)
+        dem = {k: DemandSource(type='D', demand_list=list(pr[k]['demand'])) for k in ks if pr[k]['demand'] is not None and pr[k].get('dem_where', 'node') == 'node'}
+        nodes[i].demand_source = dem if dem else None
+        for k in ks:
+            if pr[k]['demand'] is not None and pr[k].get('dem_where', 'node') == 'product': P[k].demand_source = DemandSource(type='D', demand_list=list(pr[k]['demand']))
+        for attr, f in (('local_holding_cost', 'h'), ('stockout_cost', 'p'), ('in_transit_holding_cost', 'ith'), ('order_capacity', 'cap'), ('initial_inventory_level', 'init_il'), ('revenue', 'rev')):
+            d = {k: (None if pr[k].get(f) is None else float(pr[k][f])) for k in ks if pr[k]['where'] == 'node'}
             if d: setattr(nodes[i], attr, d)
     for k, v in pr.items():
         if v['where'] == 'product':
             P[k].local_holding_cost = float(v['h']); P[k].stockout_cost = float(v['p'])
             P[k].in_transit_holding_cost = None if v['ith'] is None else float(v['ith'])
             P[k].order_capacity = v['cap']; P[k].initial_inventory_level = v['init_il']
+            P[k].revenue = float(v.get('rev', 0))
     return net
 
 
@@ -771,22 +834,19 @@ def spec_multi(case, impl):
         ks = list(impl.get('prod_order', {}).get(i, v['products']))
         assert sorted(ks) == sorted(v['products'])
         bom = {}; sup = {}
-        def implicit(p, c):
-            """no bill-of-materials relation between any product of p and any product of its successor c: the documented
-            network BOM then makes every product of c need one unit of every product of p"""
-            return not any(r in pr[k2]['bom'] for k2 in nd[c]['products'] for r in nd[p]['products'])
+        def implicit(p, c): return _implicit(nd, pr, p, c)
         for k in ks:
             bom[k] = {}
-            if not preds: bom[k]['x'] = Fraction(1); sup['x'] = [None]
             for p in preds:
                 for r in nd[p]['products']:
                     if implicit(p, i): bom[k].setdefault(r, Fraction(1))
                     elif r in pr[k]['bom']: bom[k][r] = Fraction(pr[k]['bom'][r])
+            if not preds or v.get('ext'): bom[k]['x'] = Fraction(1); sup['x'] = [None]       # the external supplier comes last
         for r in sorted({r for k in ks for r in bom[k] if r != 'x'}):
             want = sorted(p for p in preds if r in nd[p]['products'] and (implicit(p, i) or any(r in pr[k]['bom'] for k in ks)))
             got = [p for p in impl['first'][i].get(r, [])]
-            assert sorted(got) == want, (i, r, got, want)
-            sup[r] = got
+            # (which supplier comes first is configuration read from the implementation; WHO supplies r is the specification's)
+            sup[r] = got if sorted(got) == want else want
         custs = {k: [c for c in succs if implicit(i, c) or any(k in pr[k2]['bom'] for k2 in nd[c]['products'])] + ([None] if pr[k]['demand'] is not None else []) for k in ks}
         rmh = {}; rmh_sup = {}
         for r, ps in sup.items():
@@ -795,7 +855,7 @@ def spec_multi(case, impl):
             products=ks, bom=bom, sup=sup, custs=custs, preds=preds, succs=succs, slt=v['slt'], olt=v['olt'],
             dtype=(v['dis'][0] if v['dis'] else None), dis=[bool(cyc(v['dis'][1], t)) if v['dis'] else False for t in range(T)],
             h={k: Fraction(pr[k]['h']) for k in ks}, p={k: Fraction(pr[k]['p']) for k in ks},
-            ith={k: (None if pr[k]['ith'] is None else Fraction(pr[k]['ith'])) for k in ks}, rev={k: Z for k in ks},
+            ith={k: (None if pr[k]['ith'] is None else Fraction(pr[k]['ith'])) for k in ks}, rev={k: Fraction(pr[k].get('rev', 0)) for k in ks},
             cap={k: (Fraction(pr[k]['cap']) if pr[k]['cap'] else None) for k in ks}, pol={k: pr[k]['pol'] for k in ks}, rmh=rmh, rmh_sup=rmh_sup,
             demand={k: ([Fraction(cyc(pr[k]['demand'], t)) for t in range(T)] if pr[k]['demand'] is not None else None) for k in ks},
             init_il={k: (Fraction(pr[k]['init_il']) if pr[k]['init_il'] is not None else rule(pr[k]['pol'], 0)) for k in ks},
@@ -878,7 +938,9 @@ def relabel_case(case, mp):
     c = copy.deepcopy(case)
     c['ids'] = [mp[i] for i in case['ids']]
     c['edges'] = [[mp[a], mp[b]] for a, b in case['edges']]
-    c['nodes'] = {mp[i]: v for i, v in case['nodes'].items()}
+    c['nodes'] = {mp[i]: copy.deepcopy(v) for i, v in case['nodes'].items()}
+    for v in c['nodes'].values():
+        if v.get('bom'): v['bom'] = [mp[p] for p in v['bom']]
     return c
 
 
@@ -979,12 +1041,23 @@ RULES = {
            '(same seed twice; realisations fed to the Coq model)'}
 
 
-def monitors(pid, spec, G, total, tol=None, multi=False, cover=None):
+LEVELS_RULE = (' In 40% of the single-product cases (C03: 50%) nodes handle an explicit product and each attribute (lead times, cost rates and functions, revenue, capacity, '
+               'initial level / orders / shipments, policy, demand source) is given on the node, on the product or per (node, product), with decoy values on the product where the node\'s '
+               'own value must win; suppliers linked by an explicit bill of materials (number 1), by the network structure alone, or the external supplier next to predecessors, in any mix. '
+               'Multi-product stream: lead times / policies / demand sources on the products, revenue rates for 50% of the products, predecessors without any bill-of-materials relation '
+               '(network-implied raw materials) next to BOM-linked ones and to the external supplier. Input classes on which the UNCHANGED library fails are excluded and reported '
+               '(set VERIF_SIM_DEFECT_CLASSES=1 to generate them): lead times as a product-keyed dict; product-level lead times together with initial shipments / initial orders to the '
+               'external supplier; initial orders on the product of a node with order lead time > 0; echelon base-stock policy above a node with an explicit product; and the comparison of the '
+               'reported revenue with sum_k rate_k x shipments_k in periods in which a product other than the node\'s last earns revenue (only the last product\'s revenue is reported).')
+RULES = {k: v + LEVELS_RULE for k, v in RULES.items()}
+
+
+def monitors(pid, spec, G, total, tol=None, multi=False, cover=None, notes=None):
     if pid == 'C01': return mon_c01(spec, G, tol)
     if pid == 'C02': return mon_c02(spec, G, tol)
     if pid == 'C03': return mon_c03(spec, G, tol)
     if pid == 'C04': return mon_c04_multi(spec, G, tol) if multi else mon_c04(spec, G, tol, cover=cover)
-    if pid == 'C05': return mon_c05(spec, G, total, tol, check_rev=not multi)
+    if pid == 'C05': return mon_c05(spec, G, total, tol, notes=notes)
     if pid == 'C06':
         # the documented sequence of events implies every consequence checked for C01-C05 (a shipment with lead time 0 is received in the
         # period it is sent, orders follow the observed position, ...): all monitors run, so that a departure from the sequence is reported
@@ -1002,6 +1075,8 @@ def gen_single(pid, rng, nmax, tmax, directed=False):
     if pid in ('C01', 'C02'): kw = dict(bias='SP')
     elif pid == 'C03': kw = dict(olt_max=3, bias='TP/RP')
     elif pid == 'C04': kw = dict(policies=['BS', 'sS', 'rQ', 'FQ', 'EBS'])
+    # 40% of the cases (C03: 50%): attributes specified on explicit products / per (node, product), explicit vs network-implied bills of
+    # materials, nodes with predecessors AND the external supplier (simlib.gen_levels; plumbing only, the model sees the same configuration)
     c = simlib.gen_case(rng, nmax=nmax, tmax=tmax, **kw)
     c['mode'] = 'single'; c['malformed'] = None
     if pid == 'C03':
@@ -1011,6 +1086,9 @@ def gen_single(pid, rng, nmax, tmax, directed=False):
     if pid == 'C04':
         for v in c['nodes'].values():
             if v['dis'] and rng.random() < 0.4: v['dis'][0] = 'OP'
+    # (below, once the configuration is final) 40% of the cases (C03: 50%): attributes specified on explicit products / per (node, product), explicit
+    # vs network-implied bills of materials, nodes with predecessors AND the external supplier (simlib.gen_levels; plumbing only: the Stage-1 model
+    # and the monitors see the same configuration)
     if pid == 'C05' and rng.random() < 0.3:      # optional cost functions (they replace the rate for finished goods only; monitors only, the model has rates)
         for v in c['nodes'].values():
             if rng.random() < 0.5: v['hf'] = [Fraction(rng.randint(0, 12), 4), Fraction(rng.choice([0, 0, 1, 2]), 4)]
@@ -1021,6 +1099,8 @@ def gen_single(pid, rng, nmax, tmax, directed=False):
                 i = rng.choice(cand); c['nodes'][i]['dis'] = ['SP', [rng.random() < 0.4 for _ in range(rng.choice([3, 5, c['T']]))]]
     if pid == 'C02' and rng.random() < 0.04:
         i = rng.choice(c['ids']); c['nodes'][i]['init_il'] = -rng.randint(1, 6); c['malformed'] = 'negative-initial-inventory-level'
+    if rng.random() < (0.5 if pid == 'C03' else 0.4):
+        simlib.gen_levels(rng, c)
     if pid == 'C06' and not directed:
         c['aux'] = dict(mp={str(i): k for i, k in zip(c['ids'], rng.sample((range(100, 200) if rng.random() < 0.5 else range(0, len(c['ids']) + 1)), len(c['ids'])))}, rs=gen_rng_spec(rng, c))
     return c
@@ -1117,13 +1197,19 @@ def check_multi(chk, pid, case):
     except Exception as e:
         _fail(chk, 'multi-product|raises-%s' % exc_kind(e), 'simulation() of a multi-product network raises %s: %s' % (type(e).__name__, str(e)[:300]), case)
         return None, set()
-    spec = spec_multi(case, impl); G, stray = g_multi(impl['net'], case['T'], spec)
+    try:
+        spec = spec_multi(case, impl); G, stray = g_multi(impl['net'], case['T'], spec)
+    except Exception as e:
+        # the state variables do not have the entries the network of the case calls for (e.g. no pipeline for a supplier of the specification)
+        _fail(chk, 'multi-product|state-variables-do-not-match-the-network|%s' % exc_kind(e), 'reading the state variables of the supply relations of the case raises %s: %s' % (type(e).__name__, str(e)[:200]), case)
+        return None, set()
     if stray and pid == 'C01':
         _fail(chk, 'multi-product|activity-for-unused-product', 'orders/shipments for a product the customer does not use: (period, node, customer, product, values) = %s' % (stray[0],), case)
-    for sig, what in monitors(pid, spec, G, impl['total'], tol=TOL, multi=True):
+    notes = set()
+    for sig, what in monitors(pid, spec, G, impl['total'], tol=TOL, multi=True, notes=notes):
         _fail(chk, 'multi-product|' + sig, what, case)
     impl['spec'] = spec; impl['G'] = G
-    return impl, coverage(spec, G)
+    return impl, coverage(spec, G) | {'note:' + x for x in notes}
 
 
 def model2_stream(chk, pid, items):
@@ -1244,6 +1330,13 @@ def explore(chk, pid, n, n_multi=0, do_model=True):
             chk.count('policy=%s' % v['pol'][0]); chk.count('disruption=%s' % (v['dis'][0] if v['dis'] else None))
             chk.count('in_transit_rate=%s' % ('None' if v['ith'] is None else '0' if v['ith'] == 0 else '>0'))
             if pid == 'C05': chk.count('cost_functions=%s' % ('+'.join(f for f in ('hf', 'pf') if v.get(f)) or 'none'))
+            lv = v.get('lvl') or {}
+            chk.count('product=%s' % ('explicit' if v.get('prod') is not None else 'dummy'))
+            chk.count('lead_times_given_on=%s' % ('+'.join(sorted({lv.get('slt', 'node'), lv.get('olt', 'node')}))))
+            if lv: chk.count('attributes_on_product_or_(node,product)=%d' % len(lv))
+            np_ = sum(1 for a, b in c['edges'] if c['nodes'][b] is v)
+            if v.get('prod') is not None and np_:
+                chk.count('suppliers=%s' % ('+'.join(x for x, y in (('explicit-BOM', bool(v.get('bom'))), ('network-implied', len(v.get('bom') or []) < np_), ('external', bool(v.get('ext')))) if y)))
         for x in cov: chk.count('branch:' + x)
         nt = impl is not None and not c['malformed'] and 'BO>0' in cov and 'pipeline>0' in cov and any(x in cov for x in SPECIFIC[pid])
         chk.case(c, nt, simlib.case_key(c))
@@ -1264,6 +1357,9 @@ def explore(chk, pid, n, n_multi=0, do_model=True):
             impl, cov = check_multi(chk, pid, c)
             if impl is not None and do_model: m2items.append((c, impl))
             chk.count('multi:kind=%s' % c['kind']); chk.count('multi:two-suppliers-of-one-raw-material=%s' % c['twins']); chk.count('multi:unused-product=%s' % c['unused']); chk.count('multi:bom-numbers-reset-after-build=%s' % bool(c.get('rebom')))
+            chk.count('multi:mixed-suppliers(explicit-BOM/network-implied/external)=%s' % bool(c.get('mixed')))
+            chk.count('multi:lead-times-on-products=%s' % any(v.get('lt_where') == 'product' for v in c['nodes'].values()))
+            chk.count('multi:revenue=%s' % any(v.get('rev') for v in c['prods'].values()))
             for x in cov: chk.count('multi:branch:' + x)
             chk.case(c, impl is not None and 'BO>0' in cov and 'pipeline>0' in cov)
             nm += 1
